@@ -197,9 +197,14 @@ impl Vm {
       Some(fiber) => {
         let mut fiber = *fiber;
 
-        // a stale waiter entry can name the running fiber, a finished fiber
-        // or one that is already waiting in the run queue
-        if fiber == self.fiber || fiber.is_complete() || self.fiber_queue.contains(&fiber) {
+        // a stale waiter entry can name the running fiber, a finished fiber, one
+        // that is already waiting in the run queue, or the fiber of an earlier
+        // prompt line, which returned without ever being parked again
+        if fiber == self.fiber
+          || fiber.is_complete()
+          || !fiber.is_parked()
+          || self.fiber_queue.contains(&fiber)
+        {
           return;
         }
 
